@@ -34,11 +34,11 @@ def run_files(index):
 
 
 def run(index, rep):
-    state(index, rep)
-    reset(index, rep)
-    fresh(index, rep)
-    det(index, rep)
-    caller(index, rep)
+    rep.guard(state, index, rep)
+    rep.guard(reset, index, rep)
+    rep.guard(fresh, index, rep)
+    rep.guard(det, index, rep)
+    rep.guard(caller, index, rep)
 
 
 def enclosing_qual(node):
